@@ -109,7 +109,7 @@ EXTRA = {
  "C11": "Sizes now 6 A/B + 6 C runs (quick), 30 + 16 (thorough). A/B runs add a 4th program whose expiry clock is driven by settime (key written stamped 1970, then stamped now+10h: must end present with 1 or 2) and a new label set every 25 lines; workload C: every line creates a label set, a third of the lines stalled, reloads back to back, conservation per key; one forced schedule (Store.Gc between a line's dload and inc) documents known finding C11-e, whose classifier needs 'in the store at the line's dload, gone at its end' (instruction hook). Every run is guarded by the stall oracle (goroutine dump: lock waits of >= 2 minutes). Two more export loops talk to a client that goes away at the k-th write.",
  "C12": "Plus cancellation at every k-th look the handler takes at the request context, and a concurrent phase (6 exporters x 400/4000 clean, cancelled and failing attempts against 3 writers x 20k/200k write-locking updates incl. GC), run once on a clean store and once per kind of unrepresentable item, judged by the stall oracle.",
  "C13": "Plus: a label key literally named prog; pairs of label sets differing only in where a separator-like character sits; a second scrape with the same exporter after every value changed while its timestamp stayed the same; a concurrent phase (2 x 200/4000 scrapes while 2 mutators remove and re-create label sets; a label set no mutation of which overlaps the scrape on the shared logical clock must be listed exactly once with its value; no series twice; the scrape succeeds). In every fifth store the exporter's own context is cancelled before the second scrape.",
- "C14": "13 versions now (also: kind changed on a later declaration, kind clash between two declarations of the program itself). Every third history runs with -omit_metric_source, every fourth with runtime-error logging.",
+ "C14": "13 versions now (also: kind changed on a later declaration, kind clash between two declarations of the program itself). Every third history runs with -omit_metric_source, every fourth with runtime-error logging; versions add a histogram and edit its boundaries (directed histories), with the oracle that a histogram's buckets hold exactly its count.",
  "C15": "Plus 6k/300k generation runs: reader A goes through 2-4 generations (Finish after each, then reused, as the file streams do at truncation) while a second reader created after A's first Finish interleaves its reads. The alphabets include NUL.",
  "C16": "Three pre-existing-content modes (none / unterminated / terminated and not read from the start). Steps also include a fragment ending in CR and an LF alone (CR and LF in different appends).",
  "C17": "Plus 200/2000 special schedules: cancellation while a single small write (many lines + tail) is still being handed to a slow consumer (everything read must come out); one unixgram sender building a newline-free backlog up to the read-buffer size followed by a large datagram; connections arriving in a storm while the stream is cancelled. Datagram senders send empty datagrams in between.",
